@@ -14,7 +14,7 @@ ASSUMPTIONS = [
     "completes within it (+50 ms), a request without timeout may stay pending under a held link, without any fault every request gets its reply",
     "a reply travels as head and body (RpcNet.tla ToClient / BodyArrives): the unsound variation BodyUncovered (the timeout ends with the head, a body "
     "cut off is an internal error - the code before the repair) must violate C14_TimeoutBound and C14_Outcome",
-    "real sockets: the same model schedules (stride sample) and random ones, in real time (tick = 100 ms, a timed request may be 1 s late), against the real "
+    "real sockets: the same model schedules (stride sample) and random ones, in real time (tick = 100 ms, a timed request may be 2 s late; without any fault a request may still time out honestly, but not before its time), against the real "
     "hyper transport (net/client.rs) and server through a TCP relay of the harness: hold = bytes kept back in both directions, partition = connections cut "
     "and refused, hold_reply = the link goes on hold after N more bytes from the server (replies of up to 1.2 MB stopped inside their head or half-way "
     "through their body); turmoil 0.4.0 itself panics on reads larger than its segment buffer, so large replies are exercised on real sockets only",
